@@ -84,6 +84,45 @@ def range_labels(ctx, b, t, callers):
     return out
 
 
+def check_line_base(ctx, out, name, rule):
+    """The line a line-level validator reports = the content's start line + the enumerate() index of
+    the offending content line (shared with C06/C07/C08: `designates the first … line`)."""
+    n = 0
+    vb = ctx.validate_body(name, inline=True, sugar=True)
+    sites = violation_sites(ctx, name)
+    if vb is None or not sites:
+        out.viol(rule, "%s|%s|anchor" % (rule, name), "-", "no Violation::new site found for validator %s" % name)
+        out.inst(rule, 0, 2)
+        return
+    loops = linelevel.line_loops(ctx, vb)
+    if len(loops) == 1:
+        okc, core = enumerate_chain_ok(ctx, vb, vb.blocks[loops[0][2]]["term"])
+        if okc:
+            n += 1
+        else:
+            out.viol(rule, "%s|%s|index" % (rule, name), ctx.where(vb),
+                     "the line loop of %s iterates %s; the index added to the content's start line must enumerate every content line (enumerate() directly over lines())" % (name, " <- ".join(core[:5])))
+    for b, t, callers in sites:
+        rl = range_labels(ctx, b, t, callers)
+        where = ctx.where(b, t["span"])
+        for pos in ("start", "end"):
+            ll = rl[(pos, "line")]
+            if P.has_path(ll, "start_tag_position_range"):
+                out.viol(rule, "%s|%s|%s|tag-line" % (rule, name, pos), where,
+                         "the reported %s line of a %s violation derives from the start tag's position (%s): the tag's line is the wrong base as soon as the comment continues after the tag"
+                         % (pos, name, util.origins_text(P.with_field(ll, "start_tag_position_range"), 3)))
+            elif P.has_path(ll, "content_position_range", "start", "line") and P.has_call(ll, r"<impl str>::lines$"):
+                n += 1
+            else:
+                out.viol(rule, "%s|%s|%s|base" % (rule, name, pos), where,
+                         "the reported %s line of a %s violation derives from [%s]; expected the content's start line plus the enumerate index of the line" % (pos, name, util.origins_text(ll, 6)))
+            bad = sorted({l[1] for l in ll if l[0] == "call" and re.search(r"::(filter|skip|take|rev|count|position|len)$", l[1])})
+            if bad:
+                out.viol(rule, "%s|%s|%s|index-through" % (rule, name, pos), where,
+                         "the reported line passes through %s: the index no longer identifies the content line" % bad)
+    out.inst(rule, n, 2, note="reported line = content start line + enumerate index (start and end of each Violation::new site)")
+
+
 def run(ctx, out, tier):
     # ------------------------------------------------------------------ line-level validators
     n_line = n_col0 = n_cols = n_idx = 0
@@ -193,6 +232,7 @@ def run(ctx, out, tier):
     from rules.C03 import check_rebase
     check_rebase(ctx, out, rule="C10.rebase")
     check_col0_guard(ctx, out)
+    shared.sh_units(ctx, out)
     return meta()
 
 
